@@ -8,6 +8,13 @@ set -u
 ROOT="$(cd "$(dirname "${BASH_SOURCE[0]}")" && pwd)"
 cd "$ROOT"
 names=("$@"); [ ${#names[@]} -gt 0 ] || names=($(ls seeded))
+# seeds that were judged, on reflection, not to break their property (meta.json "judged") are listed
+# but not expected to be reported
+keep=()
+for n in "${names[@]}"; do
+  if grep -q '"judged"' "seeded/$n/meta.json" 2>/dev/null; then echo "judged  $n  (not a violation, see meta.json)"; else keep+=("$n"); fi
+done
+names=("${keep[@]}")
 if [ -n "${FAST:-}" ]; then
   export TRY_SEED_FAST=1
   one() {
